@@ -68,6 +68,72 @@ theorem username_change_disconnects (s : St) (hact : s.active = true) (hsub : s.
   simp [step, hact, decideAct, hsub, classify_50, hexp, dispatch, authDispatch, parseUserauthRequest, hauth,
     h1, h2, h3, hsvc, hpin, hne', perform]
 
+private theorem classify_50g (g : Bool) : classify g 50 = Class.auth := by cases g <;> decide
+
+/-- what `parseUserauthRequest` does with a refused request, whatever `gssSub`/`expected` were reset to -/
+private theorem refused_request (s : St) (hauth : s.authenticated = false) (b user service method : Bytes)
+    (r1 r2 r3 : Rd) (h1 : getText { content := b, pos := 0 } = (some user, r1))
+    (h2 : getText r1 = (some service, r2)) (h3 : getText r2 = (some method, r3))
+    (href : service ≠ sSshConnection ∨ (∃ pinned, s.authUser = some pinned ∧ user ≠ pinned)) (e : Env) :
+    ∃ m, parseUserauthRequest sc sid s b e = (s, .disconnect [] m) := by
+  unfold parseUserauthRequest
+  simp only [hauth, Bool.false_eq_true, if_false, h1, h2, h3]
+  by_cases hs : service = sSshConnection
+  · rcases href with h | ⟨p, hp, hne⟩
+    · exact absurd hs h
+    · have : s.authUser ≠ none ∧ s.authUser ≠ some user := by
+        rw [hp]; exact ⟨by simp, by simpa using fun h => hne h.symm⟩
+      simp [hs, this]
+  · simp [hs]
+
+/-- **Refusal in every dispatch state.** The two theorems above are stated for the normal handler; this one covers
+every state of the dispatch machinery (expected-packet filter set or not, GSS sub-handler installed or not, its
+table bound or not): a request for another service, or for a username other than the pinned one, reaching an
+active unauthenticated server consults no callback at all, leaves the transport inactive and nobody
+authenticated, and does not change the pinned username. -/
+theorem refusal_in_every_dispatch_state (s : St) (hact : s.active = true) (hauth : s.authenticated = false)
+    (b user service method : Bytes) (r1 r2 r3 : Rd)
+    (h1 : getText { content := b, pos := 0 } = (some user, r1))
+    (h2 : getText r1 = (some service, r2)) (h3 : getText r2 = (some method, r3))
+    (href : service ≠ sSshConnection ∨ (∃ pinned, s.authUser = some pinned ∧ user ≠ pinned)) (e : Env) :
+    (step sc sid s 50 b e).2.cbs = [] ∧ (step sc sid s 50 b e).1.active = false ∧
+    (step sc sid s 50 b e).1.authenticated = false ∧ (step sc sid s 50 b e).1.authUser = s.authUser := by
+  have key : ∀ s0 : St, s0.authenticated = false → s0.authUser = s.authUser →
+      (perform (authDispatch sc sid s0 50 b e).1 e (authDispatch sc sid s0 50 b e).2).2.cbs = [] ∧
+      (perform (authDispatch sc sid s0 50 b e).1 e (authDispatch sc sid s0 50 b e).2).1.active = false ∧
+      (perform (authDispatch sc sid s0 50 b e).1 e (authDispatch sc sid s0 50 b e).2).1.authenticated = false ∧
+      (perform (authDispatch sc sid s0 50 b e).1 e (authDispatch sc sid s0 50 b e).2).1.authUser = s.authUser := by
+    intro s0 ha hu
+    have href0 : service ≠ sSshConnection ∨ (∃ pinned, s0.authUser = some pinned ∧ user ≠ pinned) := by
+      rw [hu]; exact href
+    unfold authDispatch
+    by_cases hg : s0.gssSub = true
+    · simp only [hg, if_true]
+      by_cases hb : gssHandlersBound = false
+      · simp [hb, perform, ha, hu]
+      · obtain ⟨m, hm⟩ := refused_request sc sid { s0 with gssSub := false } ha b user service method r1 r2 r3 h1 h2 h3
+          href0 e
+        rw [if_neg hb]
+        have h5 : ¬ ((50 : Nat) = 5) := by decide
+        simp only [h5, if_false, if_true]
+        rw [hm]
+        simp [perform, ha, hu]
+    · obtain ⟨m, hm⟩ := refused_request sc sid s0 ha b user service method r1 r2 r3 h1 h2 h3 href0 e
+      simp [hg, hm, perform, ha, hu]
+  rw [step_active sc sid s 50 b e hact]
+  unfold decideAct
+  simp only [classify_50g]
+  by_cases hexp : s.expected = []
+  · simp only [hexp, ne_eq, not_true_eq_false, if_false, dispatch, classify_50g]
+    exact key s hauth rfl
+  · simp only [ne_eq, hexp, not_false_eq_true, if_true]
+    by_cases hin : 50 ∈ s.expected
+    · simp only [hin, not_true_eq_false, if_false]
+      have : ¬ (30 ≤ 50 ∧ 50 ≤ 41) := by omega
+      simp only [this, if_false, dispatch, classify_50g]
+      exact key { s with expected := [] } hauth rfl
+    · simp [hin, perform, hauth]
+
 /-- after either refusal the connection is dead for good: whatever follows, no callback, no message,
 never authenticated -/
 theorem refused_forever (s : St) (p : Nat) (b : Bytes) (e : Env)
